@@ -320,6 +320,9 @@ def main():
     kinds = ['point', 'line', 'poly', 'mpoint', 'mline', 'mpoly', 'box']
     per_kind = 30 if quick else 400
     specs = [s for s in fixed_shapes()]
+    # rings / paths that write a vertex several times in a row (G.with_repeats: a writer, reader or `==` that normalises the
+    # coordinate sequence); fixed here, and about a third of the seeded polygons / holes below carry random ones
+    specs += G.repeat_corpus()
     for kind in kinds:
         for i in range(per_kind):
             specs.append(G.rand_spec(rng, kind, 'z' if i % 4 == 3 else None))
@@ -458,29 +461,53 @@ def main():
                 pyviol.append((m, 'shapeless_write', f'text written by {type(obj).__name__} is not read back as a polygon: {back}'))
             if spec['kind'] != 'ring':
                 kw = {'k': k} if k else {}
-                pt = obj.to_polygon(**kw).to_wkt()
+                poly = obj.to_polygon(**kw)
+                pt = poly.to_wkt()
                 if pt != text:
                     pyviol.append((m, 'shapeless_write', f'{type(obj).__name__}.to_wkt differs from its polygon form\'s text'))
+                # ... and the text reads back as that polygon form, vertex for vertex (a pie slice repeats its centre k + 1 times)
+                if back[0] == 'Ok' and isinstance(back[1], GeoPolygon):
+                    if not (back[1] == poly.copy().strip_dt() and len(back[1].outline) == len(poly.outline)):
+                        pyviol.append((m, 'wkt_roundtrip', f'the text {type(obj).__name__}.to_wkt(k={k}) writes reads back as a polygon of '
+                                                           f'{len(back[1].outline)} vertices that is != its polygon form ({len(poly.outline)} vertices)'))
+                    else:
+                        ck.count('curved text read back as the polygon form')
 
     # ---- 4. agreement with an independent reader (Shapely/GEOS), fixed corpus, observed
     import shapely
     agree = 0
-    for spec in fixed_shapes() + G.curved_corpus()[:8]:
-        spec.setdefault('dt', None)
-        spec.setdefault('props', None)
+    def ring_sizes(p_):
+        ps = list(p_.geoms) if hasattr(p_, 'geoms') else [p_]
+        return [[len(q.exterior.coords)] + [len(i_.coords) for i_ in q.interiors] if hasattr(q, 'exterior') else [len(q.coords)] for q in ps]
+    pies = [sp for sp in G.curved_corpus() if sp['kind'] == 'wedge' and sp['r0'] == 0]
+    def mixed_dim(sp):
+        zs = {c[2] is None for p_ in ([sp] if 'o' in sp else sp.get('ps', [])) for r_ in [p_['o']] + [h_['o'] for h_ in p_.get('holes', []) if 'o' in h_]
+              for c in r_}
+        return len(zs) > 1
+    for spec in fixed_shapes() + G.curved_corpus()[:8] + G.repeat_corpus() + pies:
+        spec['dt'], spec['props'] = None, None
+        if mixed_dim(spec):
+            # a 2-D shell with a 3-D hole is written ring by ring ('POLYGON((0.0 0.0,...), (1.0 1.0 60.0,...))'), which GEOS does
+            # not read at all: outside this corpus (observed and reported, unrelated to repeated vertices)
+            ck.count('shapely: polygon with rings of different dimension left out')
+            continue
         obj = G.build(spec)
         text = obj.to_wkt()
         m = {'op': 'shapely', 'kind': spec['kind'], 'spec': spec, 'text': text[:300]}
+        why = ''
         try:
             a, b = shapely.from_wkt(text), obj.to_shapely()
             ok = a.equals_exact(b, 0.0) or (spec['kind'] == 'ring' and a.equals(b))
+            if spec['kind'] != 'ring' and ring_sizes(a) != ring_sizes(b):     # vertex for vertex (equals_exact also says so)
+                ok = False
+                why = f': the independent reader sees rings of {ring_sizes(a)} vertices, the Shapely conversion has {ring_sizes(b)}'
         except Exception as ex:   # noqa
             ok = False
             m['error'] = repr(ex)
         if ok:
             agree += 1
         else:
-            pyviol.append((m, 'independent_reader', 'shapely.from_wkt(text) differs from shape.to_shapely()'))
+            pyviol.append((m, 'independent_reader', 'shapely.from_wkt(text) differs from shape.to_shapely()' + why))
         # the other direction: the text an independent WRITER produces for the same geometry is read back as the shape
         if spec['kind'] in SIMPLE and not obj.has_z and not obj.has_m:      # (the Shapely bridge is 2-D)
             try:
@@ -504,8 +531,9 @@ def main():
     bridge_n = 0
     for j in range(6 if ck.tier == 'quick' else 24):
         built = []
-        for spec in fixed_shapes():
+        for spec in fixed_shapes() + [x for x in G.repeat_corpus() if x['kind'] in SIMPLE]:
             sp = copy.deepcopy(spec)
+            sp['dt'], sp['props'] = None, None
             def mv(c):
                 return (_nudge(c[0], j), _nudge(c[1], j + 1), None)
             for key in ('c',):
@@ -656,7 +684,10 @@ def main():
     ck.finish(rule='seeded: every vertex-defined kind (point, line, polygon with 0-2 holes, the three multi forms, box) written, the '
                    'text tokenised independently and compared with the model\'s tree, read back by Type.from_wkt and parse_wkt '
                    '(token level and character level), by every wrong reader; points/lines over the magnitudes str(float) can emit '
-                   '(exponent form, 17 digits, subnormals). Fixed: curved shapes x k; Shapely agreement on a fixed corpus; 150 '
+                   '(exponent form, 17 digits, subnormals); about a third of the seeded rings (a sixth of the paths) write a vertex several '
+                   'times in a row (G.with_repeats), plus a fixed corpus of those (G.repeat_corpus). Fixed: curved shapes x k incl. pie '
+                   'slices (inner radius 0: the centre k + 1 times in a row), their text read back as the polygon form; Shapely agreement '
+                   '(vertex for vertex) on a fixed corpus incl. the repeated-vertex shapes and pie slices; 150 '
                    'special texts x 7 readers; every single-character deletion / substitution / insertion (fixed alphabet) of seven '
                    'valid texts through the right reader and parse_wkt; float() lexical cases. non-trivial = distinct shape spec | '
                    'text',
